@@ -11,7 +11,7 @@ CHECKS = {
    "DESIGN.md §6 C12, §4.3"),
  "C14": ("model_checking",
    "bounded-exhaustive enumeration of segment words × IFS settings against a reference splitter",
-   "Every word of up to 6 (quick) / 7 (thorough) segments over the 8 segment kinds of the statement, under 11 IFS settings (incl. letters and characters from the upper half of ASCII) and 3 realisations, 9 segment kinds incl. an unknown tilde-prefix, words of 1-40 repetitions of 9 units, (literal parts, parameter expansions, single quotes), is expanded by the real Expand and compared with a splitter written from the statement; additionally histories on ONE environment: every sequence of ≤ 3 (thorough 4) IFS settings with 5 probe words expanded after each change, and every pair (IFS1, probe) then (IFS2, word ≤ 3 characters over {a space , : é tab}). Complete within those bounds.",
+   "Every word of up to 6 (quick) / 7 (thorough) segments over the 8 segment kinds of the statement, under 13 IFS settings (incl. letters, characters from the upper half of ASCII, and the white-space-only values newline and blank, for which white space outside IFS is a segment kind of its own) and 3 realisations, 9 segment kinds incl. an unknown tilde-prefix, words of 1-40 repetitions of 9 units, (literal parts, parameter expansions, single quotes), is expanded by the real Expand and compared with a splitter written from the statement; additionally histories on ONE environment: every sequence of ≤ 3 (thorough 4) IFS settings with 5 probe words expanded after each change, and every pair (IFS1, probe) then (IFS2, word ≤ 3 characters over {a space , : é tab}). Complete within those bounds.",
    "Trusts the reference splitter (c14Ref); words are built as AST values with NoGlob set; longer words and other IFS values are outside the bound.",
    "DESIGN.md §6 C14, §4.2"),
  "C11": ("model_checking",
@@ -41,17 +41,17 @@ CHECKS = {
    "DESIGN.md §6 C20, §2 E3"),
  "C02": ("model_checking",
    "bounded-exhaustive enumeration of symbol strings and grammar derivations against a reference grammar model",
-   "Every string of ≤ 3 symbols over the 59-symbol alphabet, ≤ 4 over the 38-symbol core, ≤ 5 over 20 and ≤ 6 over 16 symbols (thorough: one more each) is classified by an independent recursive-descent model of XCU 2.10 that also builds the expected AST; every accepted string is parsed by the real parser and the position-free AST dump, the comments and the documented node shapes must agree exactly. The same for the derivation sets (D0-D3, DH, DC = a closer directly after a redirected compound command, the word menu and the generated word space WG: every word of ≤ 2 parts from a 49-part menu / 3 parts from a 21-part menu at 5 positions) in canonical and tight layout, and for the accepted single-symbol mutants.",
+   "Every string of ≤ 3 symbols over the 59-symbol alphabet, ≤ 4 over the 38-symbol core, ≤ 5 over 20 and ≤ 6 over 16 symbols (thorough: one more each) is classified by an independent recursive-descent model of XCU 2.10 that also builds the expected AST; every accepted string is parsed by the real parser and the position-free AST dump, the comments and the documented node shapes must agree exactly. The same for the derivation sets (D0-D3, DH, DC = a closer directly after a redirected compound command, the word menu and the generated word space WG: every word of ≤ 2 parts from a 49-part menu / 3 parts from a 21-part menu at 5 positions) in canonical and tight layout, multi-line layout and the layout with a newline after every ';' the grammar allows one after, and for the accepted single-symbol mutants; plus every arithmetic text of ≤ 5 (6) characters over {1 ( ) + blank} with balanced parentheses as $((…)), ((…)) and inside double quotes (accepted, text kept).",
    "Trusts gram.go (cross-validated against dash/bash at design time); verdicts POSIX leaves open are skipped; programs longer than the bounds are covered only by the derivation sets.",
    "DESIGN.md §6 C02, §4.1"),
  "C03": ("model_checking",
    "bounded-exhaustive enumeration of symbol strings and single-symbol mutations, classified by a reference grammar model",
-   "Every string of the C02 alphabets/bounds that the grammar model rejects (≈ 2·10^7 in the quick tier) must be rejected by the real parser with a parser.Error that carries the caller's name and a position inside the consumed text at the start of a token or construct; plus all single-symbol deletions, insertions, duplications and adjacent swaps of generated well-formed programs, every word of the word menu placed at the name positions (for variable, function name) where the model rejects it, the insertion of a comment together with its newline at every position, and all pairs of 8 here-document symbols (quoted/unquoted delimiter, well-formed/ill-formed body) in 6 arrangements.",
+   "Every string of the C02 alphabets/bounds that the grammar model rejects (≈ 2·10^7 in the quick tier) must be rejected by the real parser with a parser.Error that carries the caller's name and a position inside the consumed text at the start of a token or construct; plus all single-symbol deletions, insertions, duplications and adjacent swaps of generated well-formed programs, every word of the word menu placed at the name positions (for variable, function name) where the model rejects it, the insertion of a comment together with its newline at every position, all pairs of 8 here-document symbols (quoted/unquoted delimiter, well-formed/ill-formed body) in 6 arrangements, 8 closed substitutions with ill-formed content at 9 positions, and every arithmetic text of ≤ 5 (6) characters over {1 ( ) + blank} with more ')' than '(' as $((…)) and ((…)) in 11 host sentences.",
    "Trusts gram.go for valid/invalid; which of several possible errors is reported is not compared; strings whose quotes pair up across symbols are skipped.",
    "DESIGN.md §6 C03, §4.1"),
  "C04": ("model_checking",
    "bounded-exhaustive enumeration of accepted sources with an intrinsic position oracle",
-   "Every source of the C02 spaces that the real parser accepts (all symbol strings of the tier's alphabets/bounds; derivation sets D0-D3, DH, DC, the word menu and the generated word space WG in one-line, tight, multi-line and end-of-input (no final newline) layouts, each also with multi-byte words) is walked with a typed position checker: every documented position field must spell its token in the source, Pos() <= End(), both inside the source, non-empty nodes have non-zero End(), children inside parents, siblings increasing, adjacent word parts touch, and for words without substitutions source[Pos:End) equals the printed node.",
+   "Every source of the C02 spaces that the real parser accepts (all symbol strings of the tier's alphabets/bounds; derivation sets D0-D3, DH, DC, the word menu and the generated word space WG in one-line, tight, multi-line, ';'-newline and end-of-input (no final newline) layouts, each also with multi-byte words) is walked with a typed position checker: every documented position field must spell its token in the source, Pos() <= End(), both inside the source, non-empty nodes have non-zero End(), children inside parents, siblings increasing, adjacent word parts touch, and for words without substitutions source[Pos:End) equals the printed node.",
    "Intrinsic to (source, AST); aliases and line continuations are excluded by the property; containment is not demanded for nodes that carry a here-document; Comment.End excluded.",
    "DESIGN.md §6 C04"),
  "C06": ("model_checking",
@@ -61,7 +61,7 @@ CHECKS = {
    "DESIGN.md §6 C06, §2 E2, §3"),
  "C07": ("model_checking",
    "explicit-state search over command streams (state = reader offset, transition = one ParseCommands call)",
-   "Every stream that concatenates ≤ 3 (quick) / 4 (thorough) commands from an 83-entry menu (single-line, multi-line compound, here-documents in every position incl. <<- and quoted delimiters, trailing comments, line continuations, blank lines, multi-line quotes/substitutions), each also with the last command lacking its final newline, and every generator derivation (D0, D1, DH, DC, word menu; two layouts) as first command followed by each of 5 continuations, is read by successive ParseCommands calls from a strings.Reader and a custom RuneScanner; after every call the offset must be the (constructed) end of that command and the result must equal the result of parsing that command's text alone; blank lines give empty results.",
+   "Every stream that concatenates ≤ 3 (quick) / 4 (thorough) commands from an 83-entry menu (single-line, multi-line compound, here-documents in every position incl. <<- and quoted delimiters, trailing comments, line continuations, blank lines, multi-line quotes/substitutions), each also with the last command lacking its final newline, and every generator derivation (D0, D1, DH, DC, word menu; three layouts incl. a newline after every inner ';') as first command followed by each of 5 continuations, is read by successive ParseCommands calls from a strings.Reader and a custom RuneScanner; after every call the offset must be the (constructed) end of that command and the result must equal the result of parsing that command's text alone; blank lines give empty results.",
    "Command boundaries are known by construction; comment-only lines are excluded (pinned by go.sh's own tests); streams beyond the menu are not explored.",
    "DESIGN.md §6 C07, §2 E3"),
  "C08": ("model_checking",
@@ -86,8 +86,8 @@ CHECKS = {
    "DESIGN.md §6 C17"),
  "C01": ("model_checking",
    "bounded-exhaustive enumeration of sources × source kinds × alias tables × GODEBUG settings in crash-isolated worker processes",
-   "Every symbol string of the tier's alphabets/bounds and every character string of ≤ 5 (quick) / 6 (thorough) characters over the 14 significant shell characters is parsed by ParseCommands and ParseCommand from a string, a []byte, a one-byte io.Reader, a bufio.Reader and a custom RuneScanner, the shorter ones also under 7 adversarial alias tables, plus 32 constructs repeated or nested n = 1…24 (thorough 64) times, plus every alias value of ≤ 3 (thorough 4) characters over 17 significant characters in 3 tables × 7 sources, all under GODEBUG=panicnil=0 and =1 (≈ 5·10^7 calls in the quick tier). Each case runs in a GOMAXPROCS=1 worker subprocess that announces the case first, so a crash from a background goroutine, the runtime's deadlock abort or a stalled worker is attributed to it; the result must be commands and/or an error.",
-   "Free-running: one OS-chosen schedule per case (all schedules are C06's subject); a hang is detected by the Go runtime's deadlock detector or a 120 s no-progress watchdog; unbounded random programs are not explored.",
+   "Every symbol string of the tier's alphabets/bounds and every character string of ≤ 5 (quick) / 6 (thorough) characters over the 14 significant shell characters is parsed by ParseCommands and ParseCommand from a string, a []byte, a one-byte io.Reader, a bufio.Reader and a custom RuneScanner, the shorter ones also under 7 adversarial alias tables, plus 32 constructs repeated or nested n = 1…24 (thorough 64) times, plus every alias value of ≤ 3 (thorough 4) characters over 17 significant characters in 3 tables × 7 sources, all under GODEBUG=panicnil=0 and =1 (≈ 5·10^7 calls in the quick tier). Each case runs in a GOMAXPROCS=1 worker subprocess that announces the case first, so a crash from a background goroutine, the runtime's deadlock abort or a stalled worker is attributed to it; the result must be commands and/or an error. Schedule phase (workers built with -tags verif): for ≈ 150 sources (every here-document template of C08, every construct repeated or nested once and twice, inputs ending inside a here-document, substitution or quote) the controlled scheduler explores every interleaving of the lexer and parser goroutines with ≤ 1 (thorough 2) preemptions; under each the call must return (no state in which the caller has not returned and no goroutine is enabled).",
+   "Main phase free-running: one OS-chosen schedule per case; the schedule phase checks termination only (results under every schedule are C06's and C08's subject); a hang is detected by the Go runtime's deadlock detector or a 120 s no-progress watchdog; unbounded random programs are not explored.",
    "DESIGN.md §6 C01"),
  "C05": ("model_checking",
    "bounded-exhaustive enumeration of accepted programs × all 256 printer configurations with a metamorphic round-trip oracle",
@@ -97,7 +97,7 @@ CHECKS = {
  "C18": ("model_checking",
    "bounded-exhaustive enumeration of programs × 256 configurations (idempotence, purity) and of all single write-fault positions",
    "For the programs of C05 under 128 (quick) / all 256 Configs: printing the re-parsed output gives identical bytes, two prints of one tree are equal, and a reflection dump of every field of the tree (positions, Sep/SepPos) is identical before and after Fprint. Writer faults: for every program and 3 Configs a writer that accepts k bytes and then fails, for every k below the output length, and three outputs of 9-14 KB (one line, 700 lines, 400 here-documents) × 11 fault positions around bufio's buffer boundaries, must make Fprint return a non-nil error, without panic and with the tree unchanged.",
-   "The deep comparison runs after every 4th (quick: 32nd) configuration and after the last; outputs that do not re-parse are C05's subject.",
+   "The deep comparison runs after every 4th (quick: 32nd) configuration and after the last; an output that does not re-parse is reported here as well as by C05.",
    "DESIGN.md §6 C18"),
  "C19": ("model_checking",
    "bounded-exhaustive enumeration of inputs per entry point in crash-isolated worker processes",
